@@ -442,7 +442,8 @@ SPEC = {
              'inputs in order, same number of outputs, reference truth table equal output by output, gates_number() not larger, '
              'wellformed(); FailedValidationError is always a violation; any other exception is a violation on circuits without '
              'functionally equivalent gates. Case classes eq / comp / clean, const, dead computed from reference tables. '
-             'Finite part: all 780 two-motif chains (sharded, every run). Non-trivial: the result differs structurally from the argument.'),
+             'Finite part: all 780 two-motif chains (sharded, every run). Non-trivial: the result differs structurally from the argument.'
+             ' Added during the build: sharded sweep wide_cuts (AND / OR / NAND / NOR trees over 7, thorough also 8, inputs plus one redundant gate, widest-cut policy, 3 s / 10 s solver limit), pass-through and repeated outputs, named blocks on the argument.'),
     'assumptions': ['cut enumerator and SAT solver are stand-ins inside the quantified domain (any admissible cut family, any sound and complete solver)'],
     'sharded': {'motif_pairs': motif_pairs_sweep, 'wide_cuts': wide_cuts_sweep},
     'replay': {'motif_pairs': replay_motif_pair, 'wide_cuts': replay_motif_pair},
